@@ -647,21 +647,41 @@ def opt_lit(r, render):
     return "(Some %s)" % render(r["ok"]) if r is not None and "ok" in r else "None"
 
 
+def others_lit(res, keys):
+    return clist(cpairs(res[k]) for k in keys if k in res)
+
+
+def rt_lit(res, obs_key, rt_key, render):
+    """the re-parsed export of a returned combination; a missing entry means the export (or the parse) raised"""
+    if "ok" not in res.get(obs_key, {}):
+        return "Raised"
+    return obs_lit(res.get(rt_key), render)
+
+
 def dcase_lit(job, res):
-    return "(CD (DC %s %s %s %s %s %s %s %s))" % (
+    # names after the call and at the end of the job (after the exports, the problems, the re-parsing) must both be
+    # the initial ones: the literal carries the union of the two observations
+    fresh = cstrs(dict.fromkeys([k for k, _ in res["default_after"]["fresh"]] + [k for k, _ in res["default_end"]["fresh"]]))
+    default = cstrs(dict.fromkeys([k for k, _ in res["default_after"]["DEFAULT_TYPES"]] +
+                                  [k for k, _ in res["default_end"]["DEFAULT_TYPES"]]))
+    return "(CD (DC %s %s %s %s %s %s %s %s %s %s %s))" % (
         cpairs(res["default_before"]["fresh"]), cbool(job["dummy"]),
         clist(obs_lit(r, domain_lit) for r in res["dfiles"]), obs_lit(res["dobs"], domain_lit),
-        cstrs(k for k, _ in res["default_after"]["fresh"]),
-        cbool(res["others_same"] and res["default_after"]["DEFAULT_TYPES"] == res["default_after"]["fresh"]),
-        cbool("ok" not in res["dobs"] or bool(res.get("drt_same"))),
+        fresh, default,
+        others_lit(res, ("others_before", "others_mid", "others_again_mid", "others_after", "others_again")),
+        rt_lit(res, "dobs", "drt", domain_lit), obs_lit(res.get("dobs2"), domain_lit),
+        rt_lit(res, "dobs2", "drt2", domain_lit),
         opt_lit(res.get("dexpect"), domain_lit))
 
 
 def pcase_lit(job, res):
-    return "(CP (PC %s %s %s %s %s))" % (
+    return "(CP (PC %s %s %s %s %s %s))" % (
         clist(obs_lit(r, problem_lit) for r in res["pfiles"]), obs_lit(res["pobs"], problem_lit),
-        cbool("ok" not in res["pobs"] or bool(res.get("prt_same"))),
-        cstrs(k for k, _ in res["default_after_problems"]["fresh"]),
+        rt_lit(res, "pobs", "prt", problem_lit),
+        cstrs(dict.fromkeys([k for k, _ in res["default_after_problems"]["fresh"]] +
+                            [k for k, _ in res["default_after_problems"]["DEFAULT_TYPES"]] +
+                            [k for k, _ in res["default_end"]["fresh"]])),
+        others_lit(res, ("others_before", "others_after", "others_again")),
         opt_lit(res.get("pexpect"), problem_lit))
 
 
@@ -745,7 +765,7 @@ def run(args):
                                                                  "input": {"job": job, "implementation": res}})
             rep.violation(p, False)
             continue
-        slim = {k: v for k, v in res.items() if k not in ("others_before",)}
+        slim = dict(res)
         cases.append({"lit": dcase_lit(job, res), "input": {"job": job, "part": "domains", "implementation": slim},
                       "nontrivial": nontrivial_maps(res["dfiles"], ("types", "consts", "preds", "funcs", "acts")),
                       "witness_of": None})
